@@ -371,7 +371,7 @@ def sequencing_oracle(cc, exchanges, outcome, final, conforming=None):
             if b2[2] > cur_szx: return ("C05:block2-request-szx-grew", "follow-up request %d uses size exponent %d, server's last block had %d" % (j, b2[2], cur_szx))
             if r == "fail": justified = ("transport-failure", "transport failure"); break
             nb2 = r["block2"]
-            if nb2 is None: by_design_single = r; break        # accepted as a single response by design (protocol.py:1110)
+            if nb2 is None: by_design_single = r; break        # accepted as a single response by design (protocol.py:1123)
             n, m, szx = nb2; size = 1 << (min(szx, 6) + 4)
             if m and len(r["payload"]) != size: justified = ("block2-nonfinal-size", "non-final block of %d bytes at size %d" % (len(r["payload"]), size)); break
             if not m and len(r["payload"]) > size: justified = ("block2-final-size", "final block of %d bytes exceeds size %d" % (len(r["payload"]), size)); break
@@ -421,8 +421,8 @@ class C05(fw.Property):
                   "The hand-written client machine is tied to protocol.py by running both on the same scenarios (reference server, arbitrary scripted responses, lossy network).")
     level_note = ("Trusted: Coq kernel + vm_compute; translator py2v.py + the C05 job's ast rewrite (validated by the kernels stream); correspondence of Model/C05.v with "
                   "BlockwiseRequest (sampled scenarios); the reference server as a reading of RFC 7959. Not covered: size exponent 7 / BERT (tier B), observation + block-wise, the "
-                  "deprecated application-set Block1 option, a response dropping the Block2 option mid-transfer (accepted by design). One open known finding (first response with "
-                  "Block2 NUM>0, M=0 accepted), carried by the model as C05_first_block2_number_unchecked_refuted.")
+                  "deprecated application-set Block1 option, a response dropping the Block2 option mid-transfer (accepted by design). The defect found by this check (first response with "
+                  "Block2 NUM>0, M=0 accepted as the whole body) is fixed in /repo (69c1201); model, theorem C05_first_block2_number_checked and a corpus case follow the fixed code.")
     rule = ("streams: kernels = _extract_block for all block numbers of boundary-length bodies + BlockwiseTuple methods on boundary tuples vs Gen/block_kernels.v; "
             "transfer = real BlockwiseRequest x Python RFC 7959 reference server vs Coq client model x Coq reference server (body / representation lengths from the boundary "
             "table 0,1,15..17,...,1023..1025,1124/1125,2047..2049,4096 and random; client exponent 0..6; maximum_payload_size variants; application Block2 hint; server "
